@@ -222,7 +222,8 @@ def run(ctx):
     ntrees = 150 if ctx.tier == 'quick' else 2500
     optsets = ['x', 'e', 'xf', 'xq0', 'xq1', 'xq2', 'xq', 'xv', 'xfi', 'xfw=out', 'xfw=new/deep/er', 'xfw=existing', 'xfv', 'efq']
     for t in range(ntrees):
-        entries = fstree.gen_tree(rnd, METHODS, maxdepth=rnd.choice([1, 2, 4, 5]))
+        entries = fstree.gen_tree(rnd, METHODS, maxdepth=rnd.choice([1, 2, 4, 5])) if t else \
+            fstree.mac_plain_tree(rnd, [m for m in ('-lh0-', '-lz4-', '-lh5-', '-lz5-', '-lzs-', '-lh1-', '-pm2-') if m in METHODS])
         if not entries:
             continue
         ms = fstree.to_members(entries, rnd, arc, streams)
